@@ -22,6 +22,12 @@ def run(chk):
         texts.append(c["script"])
         base.append(c)
         kinds.append("unedited")
+        for _ in range(2):
+            e = gen_check.name_edit(c["script"], rng)
+            if e:
+                texts.append(e[0])
+                base.append(c)
+                kinds.append("name:" + e[1])
         for _ in range(3):
             e = gen_check.type_edit(c["script"], rng)
             if e:
